@@ -33,6 +33,7 @@ type scriptReader struct {
 	failErr      error // error returned at failAt (nil => io.EOF)
 	failWithData bool  // deliver the last bytes and the error in the same call
 	transient    bool  // the failure is reported once; later calls deliver the rest of the data
+	repeat       int   // transient only: the failure is reported this many times in a row first (0 = once)
 	calls        int
 	events       []rdEvent
 	failed       bool
@@ -81,7 +82,11 @@ func (s *scriptReader) Read(p []byte) (int, error) {
 		}
 		if s.transient && s.failAt >= 0 && s.failAt < len(s.data) {
 			// one-off failure (EINTR/EAGAIN style): the data after failAt is still there
-			s.failAt = -1
+			if s.repeat > 1 {
+				s.repeat--
+			} else {
+				s.failAt = -1
+			}
 		} else {
 			s.failed = true
 		}
@@ -145,6 +150,14 @@ func (s *scriptReader) crossesUnit() bool {
 }
 
 var errCustom = errors.New("verif: injected entropy failure")
+
+// errTemporary is an error VALUE of the kind network and device sources return: it classifies itself
+// as temporary / timeout. The statement makes no exception for it: any reported error ends the call.
+type errTemporary struct{ timeout bool }
+
+func (e errTemporary) Error() string   { return "verif: resource temporarily unavailable" }
+func (e errTemporary) Temporary() bool { return true }
+func (e errTemporary) Timeout() bool   { return e.timeout }
 
 // ---------------------------------------------------------------------------
 // key and scalar helpers
